@@ -18,6 +18,40 @@ use url::Url;
 
 pub type TS = Pin<Box<dyn futures::Stream<Item = Result<Bytes, TransportError>> + Send>>;
 
+/// While a save is in progress the transport looks at the output directory every time a chunk is
+/// pulled: (directory, listing before the save, observations made, deviations seen)
+pub static OBSERVER: Mutex<Option<(std::path::PathBuf, String, u64, u64)>> = Mutex::new(None);
+
+fn visible_listing(dir: &std::path::Path) -> String {
+    fn walk(d: &std::path::Path, out: &mut Vec<String>) {
+        if let Ok(rd) = std::fs::read_dir(d) {
+            for e in rd.flatten() {
+                let p = e.path();
+                if p.is_dir() {
+                    walk(&p, out);
+                } else if !e.file_name().to_string_lossy().starts_with(".tmp") {
+                    let content = std::fs::read(&p).unwrap_or_default();
+                    out.push(format!("{}:{}", p.display(), crate::repo::sha256hex(&content)));
+                }
+            }
+        }
+    }
+    let mut v = Vec::new();
+    walk(dir, &mut v);
+    v.sort();
+    v.join("\n")
+}
+
+fn observe() {
+    let mut g = OBSERVER.lock().unwrap();
+    if let Some((dir, before, n, dev)) = g.as_mut() {
+        *n += 1;
+        if visible_listing(dir) != *before {
+            *dev += 1;
+        }
+    }
+}
+
 #[derive(Clone, Debug)]
 pub enum Entry {
     Absent,
@@ -33,6 +67,9 @@ pub struct Mem {
     pub log: Arc<Mutex<Vec<String>>>,
     pub chunk: usize,
     pub prefix: String,
+    /// serve the only target file for any target request (decouples file-system checks from the
+    /// way Url::join treats characters such as '?', '#', ':' and percent-encoded dots)
+    pub lenient_targets: bool,
 }
 
 #[async_trait]
@@ -45,7 +82,14 @@ impl Transport for Mem {
             None => percent_decode(&path),
         };
         self.log.lock().unwrap().push(name.clone());
-        let entry = self.files.lock().unwrap().get(&name).cloned().unwrap_or(Entry::Absent);
+        let mut entry = self.files.lock().unwrap().get(&name).cloned().unwrap_or(Entry::Absent);
+        if self.lenient_targets && matches!(entry, Entry::Absent) && !path.starts_with(&self.prefix) {
+            let files = self.files.lock().unwrap();
+            let cands: Vec<&Entry> = files.iter().filter(|(k, _)| k.starts_with("/targets/")).map(|(_, v)| v).collect();
+            if cands.len() == 1 {
+                entry = cands[0].clone();
+            }
+        }
         match entry {
             Entry::Absent => Err(TransportError::new(TransportErrorKind::FileNotFound, url)),
             Entry::FetchErr => Err(TransportError::new(TransportErrorKind::Other, url)),
@@ -62,9 +106,18 @@ impl Transport for Mem {
                     let block = Bytes::from(vec![b'x'; 4096]);
                     return Ok(futures::stream::iter(v)
                         .chain(futures::stream::repeat_with(move || Ok(block.clone())))
+                        .map(|x| {
+                            observe();
+                            x
+                        })
                         .boxed());
                 }
-                Ok(futures::stream::iter(v).boxed())
+                Ok(futures::stream::iter(v)
+                    .map(|x| {
+                        observe();
+                        x
+                    })
+                    .boxed())
             }
             Entry::File { bytes, endless, fail } => {
                 if fail == 1 || fail == 2 {
@@ -284,6 +337,7 @@ pub fn run(rt: &tokio::runtime::Runtime, pool: &KeyPool, sc: &Value) -> Value {
             log: Arc::new(Mutex::new(Vec::new())),
             chunk: cy["chunk"].as_u64().unwrap_or(0) as usize,
             prefix: "/metadata/".to_string(),
+            lenient_targets: cy["lenient_targets"].as_bool().unwrap_or(false),
         };
         tough::verif_hooks::set_clock_offset_secs(now);
         let shipped_bytes = shipped.bytes.clone();
@@ -349,7 +403,7 @@ pub fn run_single(rt: &tokio::runtime::Runtime, pool: &KeyPool, sc: &Value) -> V
         }
     }
     let shipped = b.build(cy["shipped"].as_str().unwrap());
-    let mem = Mem { files: Arc::new(Mutex::new(files)), log: Arc::new(Mutex::new(Vec::new())), chunk: 0, prefix: "/metadata/".to_string() };
+    let mem = Mem { files: Arc::new(Mutex::new(files)), log: Arc::new(Mutex::new(Vec::new())), chunk: 0, prefix: "/metadata/".to_string(), lenient_targets: false };
     let enforce = cy["enforce"].as_bool().unwrap_or(true);
     let shipped_bytes = shipped.bytes.clone();
     // marker for the trace parser: everything after this syscall belongs to the cycle
@@ -579,6 +633,7 @@ pub fn run_ops(rt: &tokio::runtime::Runtime, repo: &tough::Repository, mem: &Mem
         } else {
             let prefix = op["prefix"].as_bool().unwrap_or(false);
             model_ops.push(json!([1, tn_tree, of_bool(prefix), z_tree(now)]));
+            *OBSERVER.lock().unwrap() = Some((sentinel.path().to_path_buf(), visible_listing(sentinel.path()), 0, 0));
             let res = rt.block_on(async {
                 tokio::time::timeout(
                     std::time::Duration::from_secs(20),
@@ -594,7 +649,8 @@ pub fn run_ops(rt: &tokio::runtime::Runtime, repo: &tough::Repository, mem: &Mem
                     if c[0] == json!(4) { json!([4, 9]) } else { c }
                 }
             };
-            results.push(json!([3, code, listing(sentinel.path(), "outdir")]));
+            let (nobs, ndev) = OBSERVER.lock().unwrap().take().map(|(_, _, n, d)| (n, d)).unwrap_or((0, 0));
+            results.push(json!([3, code, listing(sentinel.path(), "outdir"), [nobs, ndev]]));
         }
     }
     tough::verif_hooks::set_clock_offset_secs(0);
